@@ -245,6 +245,7 @@ func buildProperties() []Property {
 				{"R-DIV-GUARD", 3, ruleDivGuard},
 				{"R-SHIFT-GUARD", 2, ruleShiftGuard},
 				{"R-FTOI-RANGE", 4, ruleFtoIRange},
+				{"R-FLOAT-EXC", 5, ruleFloatExc},
 				{"R-DISPATCH-FAMILY", 30, ruleDispatchFamily},
 				{"R-INT-WRAP", 3, ruleIntWrap},
 			},
